@@ -115,6 +115,51 @@ Section Wire.
     let loads := map (fun st => as_opt (fun x => map dec_e (as_list x)) (nthv 4 st)) (as_list (nthv 2 (nthv 1 v))) in
     vbool (crash_ok (tab_eqb M) (cc_told cc) (cc_tnew cc) loads).
 
+  (* ---- several flushes, crashes in between: the directory is NOT cleaned ----
+     case = (ops_old rounds old_file datas); round = (delta i k): a server starts on the directory as
+     the previous round left it, applies delta, flushes datas[j] and dies at crash label (i, k);
+     (5, 0) = the flush completes.  Each flush uses its own temporary name (TMP + j). *)
+  Record rstate := { rs_fs : fs; rs_d : @disk E; rs_j : nat; rs_out : list val; rs_judge : list (list E * list E * bool) }.
+
+  Definition strays (n : nat) (s : fs) : list val :=
+    flat_map (fun j => match s (TMP + Z.of_nat j) with Some c => [VB c] | None => [] end) (seq 0 n).
+
+  Definition round_step (n : nat) (datas : list val) (st : rstate) (r : val) : rstate :=
+    let delta := map dec_mop (as_list (nthv 0 r)) in
+    let i := as_nat (nthv 1 r) in
+    let k := as_nat (nthv 2 r) in
+    let d := rs_d st in
+    let '(st2, _) := fst (mrun M (restart M d, d) delta) in
+    let pending := negb (pend_empty st2) in
+    let ops := if pending then safe_flush TGT (TMP + Z.of_nat (rs_j st)) (as_bytes (nth (rs_j st) datas (VB []))) else [] in
+    let s' := crash_pick (rs_fs st) ops i k in
+    let d' := if pending && Nat.eqb i 5 then Some (m_tab st2) else d in
+    {| rs_fs := s'; rs_d := d'; rs_j := S (rs_j st);
+       rs_out := rs_out st ++ [VL [vopt VB (s' TGT); VL (strays n s'); vsome (vlist enc_e (load M d'))]];
+       rs_judge := rs_judge st ++ [(load M d, m_tab st2, Nat.eqb i 5)] |}.
+
+  Definition rounds_final (c : val) : rstate :=
+    let ops_old := map dec_mop (as_list (nthv 0 c)) in
+    let rounds := as_list (nthv 1 c) in
+    let old_file := as_opt as_bytes (nthv 2 c) in
+    let datas := as_list (nthv 3 c) in
+    let '(_, d1) := fst (mrun M start (ops_old ++ [MFlush])) in
+    fold_left (round_step (length rounds) datas) rounds
+      {| rs_fs := fun p => if Z.eqb p TGT then old_file else None; rs_d := d1; rs_j := O; rs_out := []; rs_judge := [] |}.
+
+  Definition recrash_run (c : val) : val := VL (rs_out (rounds_final c)).
+
+  Fixpoint rounds_judge (js : list (list E * list E * bool)) (obs : list val) : bool :=
+    match js, obs with
+    | [], [] => true
+    | (told, tnew, complete) :: js', o :: obs' =>
+        round_ok (tab_eqb M) told tnew complete (as_opt (fun x => map dec_e (as_list x)) (nthv 2 o)) &&
+        rounds_judge js' obs'
+    | _, _ => false
+    end.
+  Definition recrash_okv (v : val) : val :=
+    vbool (rounds_judge (rs_judge (rounds_final (nthv 0 v))) (as_list (nthv 1 v))).
+
   (* ---- the JSON laws on the implementation's decoder: a torn target file ----
      case = (ops_old ops_delta ks): after the two flushes the target is overwritten with
      its own prefixes of the lengths ks (0 = empty file) and loaded by a fresh provider;
@@ -162,3 +207,7 @@ Definition x_C18_utorn_run : val -> val := torn_run user_ops enc_user dec_ux.
 Definition x_C18_utorn_ok : val -> val := torn_ok user_ops dec_user dec_ux.
 Definition x_C18_rtorn_run : val -> val := torn_run (route_ops url_ok_c18) enc_route dec_route.
 Definition x_C18_rtorn_ok : val -> val := torn_ok (route_ops url_ok_c18) dec_route dec_route.
+Definition x_C18_urecrash_run : val -> val := recrash_run user_ops enc_user dec_ux.
+Definition x_C18_urecrash_ok : val -> val := recrash_okv user_ops dec_user enc_user dec_ux.
+Definition x_C18_rrecrash_run : val -> val := recrash_run (route_ops url_ok_c18) enc_route dec_route.
+Definition x_C18_rrecrash_ok : val -> val := recrash_okv (route_ops url_ok_c18) dec_route enc_route dec_route.
